@@ -26,7 +26,14 @@ func (s Sort) Elem() Sort {
 	if !s.IsArr() {
 		panic("Elem of non-array sort " + string(s))
 	}
-	return Sort(strings.TrimSuffix(strings.TrimPrefix(string(s), "(Array Int "), ")"))
+	rest := strings.TrimPrefix(string(s), "(Array ")
+	if strings.HasPrefix(rest, "Int ") {
+		rest = strings.TrimPrefix(rest, "Int ")
+	} else if strings.HasPrefix(rest, "(_ BitVec ") {
+		i := strings.Index(rest, ")")
+		rest = rest[i+2:]
+	}
+	return Sort(strings.TrimSuffix(rest, ")"))
 }
 func BVSort(w int) Sort { return Sort(fmt.Sprintf("(_ BitVec %d)", w)) }
 func (s Sort) IsBV() bool { return strings.HasPrefix(string(s), "(_ BitVec ") }
